@@ -53,6 +53,8 @@ type dbMb struct {
 	Sub  bool
 	Next int // next UID
 	Rows []dbRow
+	// FLAGS, PERMANENTFLAGS and attributes of the mailbox (lower-cased, sorted)
+	Flags, Perm, Attrs []string
 }
 
 type dbMsg struct {
@@ -73,6 +75,7 @@ func (s *dbSnap) clone() *dbSnap {
 	for _, m := range s.Mb {
 		c := *m
 		c.Rows = append([]dbRow{}, m.Rows...)
+		c.Flags, c.Perm, c.Attrs = append([]string{}, m.Flags...), append([]string{}, m.Perm...), append([]string{}, m.Attrs...)
 		n.Mb = append(n.Mb, &c)
 	}
 	for _, m := range s.Ms {
@@ -160,6 +163,22 @@ func (s *dbSnap) sortAll() {
 	sort.Slice(s.DSub, func(i, j int) bool { return s.DSub[i][0]+"\x00"+s.DSub[i][1] < s.DSub[j][0]+"\x00"+s.DSub[j][1] })
 }
 
+// normSet: lower-cased, sorted, without duplicates (nothing is dropped).
+func normSet(fs []string) []string {
+	m := map[string]bool{}
+	for _, f := range fs {
+		if f = strings.ToLower(strings.TrimSpace(f)); f != "" {
+			m[f] = true
+		}
+	}
+	r := make([]string, 0, len(m))
+	for f := range m {
+		r = append(r, f)
+	}
+	sort.Strings(r)
+	return r
+}
+
 func normFlags(fs []string) []string {
 	m := map[string]bool{}
 	for _, f := range fs {
@@ -192,6 +211,17 @@ func readSnap(cl db.Client) (*dbSnap, error) {
 				return err
 			}
 			m.Next = int(next)
+			if fl, err := r.GetMailboxFlags(ctx, mb.ID); err == nil {
+				m.Flags = normSet(fl.ToSlice())
+			} else {
+				return err
+			}
+			if fl, err := r.GetMailboxPermanentFlags(ctx, mb.ID); err == nil {
+				m.Perm = normSet(fl.ToSlice())
+			} else {
+				return err
+			}
+			m.Attrs = normSet(mb.Attributes.ToSlice())
 			rows, err := r.GetMailboxMessageForNewSnapshot(ctx, mb.ID)
 			if err != nil {
 				return err
@@ -265,6 +295,8 @@ type vmsg struct {
 }
 
 type mview struct {
+	// FLAGS / PERMANENTFLAGS lines of EXAMINE and the attributes of the LIST line (lower-cased, sorted)
+	Flags, Perm, Attrs []string
 	Name   string
 	UIDV   int
 	Next   int
@@ -279,6 +311,8 @@ type wview struct {
 
 var (
 	reListName = regexp.MustCompile(`^\* (LIST|LSUB) \(([^)]*)\) "(.)" (.*)$`)
+	reFlagsLine = regexp.MustCompile(`^\* FLAGS \(([^)]*)\)`)
+	rePermLine  = regexp.MustCompile(`\[PERMANENTFLAGS \(([^)]*)\)\]`)
 	reUIDV     = regexp.MustCompile(`\[UIDVALIDITY (\d+)\]`)
 	reUIDNext  = regexp.MustCompile(`\[UIDNEXT (\d+)\]`)
 	reMarker   = regexp.MustCompile(`(?m)^X-Marker: (\S+)\r?$`)
@@ -321,12 +355,14 @@ func freshView(c *imapc.Client) (*wview, error) {
 		return nil, err
 	}
 	var names []string
+	listAttrs := map[string][]string{}
 	for _, l := range r.Untagged {
 		if m := reListName.FindStringSubmatch(l.Text); m != nil {
 			if strings.Contains(strings.ToLower(m[2]), `\noselect`) {
 				continue
 			}
 			names = append(names, unquote(m[4]))
+			listAttrs[unquote(m[4])] = normSet(strings.Fields(m[2]))
 		}
 	}
 	r, err = okCmd(c, `LSUB "" "*"`)
@@ -344,9 +380,15 @@ func freshView(c *imapc.Client) (*wview, error) {
 		if err != nil {
 			return nil, err
 		}
-		mv := &mview{Name: name}
+		mv := &mview{Name: name, Attrs: listAttrs[name]}
 		all := r.Text
 		for _, l := range r.Untagged {
+			if x := reFlagsLine.FindStringSubmatch(l.Text); x != nil {
+				mv.Flags = normSet(strings.Fields(x[1]))
+			}
+			if x := rePermLine.FindStringSubmatch(l.Text); x != nil {
+				mv.Perm = normSet(strings.Fields(x[1]))
+			}
 			all += "\n" + l.Text
 			if e := imapc.ParseEv(l); e.Kind == "EXISTS" {
 				mv.Exists = e.N
